@@ -18,6 +18,7 @@ import (
 // package generates. The result goes into the evidence (extra "unregistered_types"); it is a warning, not a failure.
 
 type discType struct {
+	own      map[string]bool // methods declared on the type itself
 	methods  map[string]bool
 	embeds   []string // qualified names of embedded types
 	exported bool
@@ -48,11 +49,12 @@ func typeExprName(pkg string, e ast.Expr) string {
 	return ""
 }
 
-func discover(repo string) (serializable []string, err error) {
+func discover(repo string) (serializable []string, ownCodec map[string]bool, err error) {
+	ownCodec = map[string]bool{}
 	types := map[string]*discType{}
 	get := func(n string) *discType {
 		if types[n] == nil {
-			types[n] = &discType{methods: map[string]bool{}}
+			types[n] = &discType{methods: map[string]bool{}, own: map[string]bool{}}
 		}
 		return types[n]
 	}
@@ -83,6 +85,7 @@ func discover(repo string) (serializable []string, err error) {
 				}
 				if n := typeExprName(pkg, d.Recv.List[0].Type); n != "" {
 					get(n).methods[d.Name.Name] = true
+					get(n).own[d.Name.Name] = true
 				}
 			case *ast.GenDecl:
 				for _, s := range d.Specs {
@@ -126,6 +129,9 @@ func discover(repo string) (serializable []string, err error) {
 		m := t.methods
 		if t.exported && ((m["WriteTo"] && m["ReadFrom"]) || (m["MarshalBinary"] && m["UnmarshalBinary"]) || (m["MarshalJSON"] && m["UnmarshalJSON"])) {
 			serializable = append(serializable, n)
+			o := t.own
+			// the type declares at least one of the codec methods itself (not only through an embedded field)
+			ownCodec[n] = o["WriteTo"] || o["ReadFrom"] || o["MarshalBinary"] || o["UnmarshalBinary"] || o["MarshalJSON"] || o["UnmarshalJSON"]
 		}
 	}
 	sort.Strings(serializable)
@@ -150,21 +156,23 @@ func recordDiscovery(prop string) {
 	if repo == "" {
 		repo = "/repo"
 	}
-	all, err := discover(repo)
+	all, own, err := discover(repo)
 	if err != nil {
 		h.SetExtra(prop, "discovery_error", err.Error())
 		return
 	}
 	cov := coveredTypes()
-	var missing []string
+	missing, promoted := []string{}, []string{}
 	for _, n := range all {
-		if !cov[n] {
+		switch {
+		case cov[n]:
+		case own[n]:
 			missing = append(missing, n)
+		default:
+			promoted = append(promoted, n)
 		}
 	}
-	if missing == nil {
-		missing = []string{}
-	}
 	h.SetExtra(prop, "discovered_serializable_types", len(all))
-	h.SetExtra(prop, "unregistered_types", missing)
+	h.SetExtra(prop, "unregistered_types", missing)                        // have a codec of their own and are not generated
+	h.SetExtra(prop, "unregistered_types_promoted_methods_only", promoted) // only embed a serializable type
 }
